@@ -176,6 +176,11 @@ def observe_pdm(case):
         pdm = make_pdm(tree, case["ctor"])
     except Exception as e:
         return ["Err", core.exc_enum(e)]
+    return ["Ok", snapshot(pdm, objs, tix, case["acc"], case["means"])]
+
+
+def snapshot(pdm, objs, tix, acc_q, means_q, full=True):
+    """the tables of the matrix object and the answers to the queries, as the object is now"""
     taxa = sorted(tix[id(x)] for x in pdm._mapped_taxa)
     tobj = lambda i: objs[i]
 
@@ -192,8 +197,8 @@ def observe_pdm(case):
         return rows
     obs = {
         "taxa": taxa,
-        "tree_length": units(pdm._tree_length),
-        "num_edges": pdm._num_edges,
+        "tree_length": units(pdm._tree_length) if full else -1,
+        "num_edges": pdm._num_edges if full else -1,
         "dist": table(pdm._taxon_phylogenetic_distances, units),
         "steps": table(pdm._taxon_phylogenetic_path_steps, int),
         "mrca": table(pdm._mrca, lambda nd: nd._dv_id),
@@ -201,7 +206,7 @@ def observe_pdm(case):
     }
     # the accessors agree with each other (checked here, the model has one `distance`)
     acc = []
-    for a, b, w, nrm in case["acc"]:
+    for a, b, w, nrm in acc_q:
         ta, tb = tobj(a), tobj(b)
         r = res_call(lambda: pdm.distance(ta, tb, is_weighted_edge_distances=w, is_normalize_by_tree_size=nrm))
         if w:
@@ -217,7 +222,7 @@ def observe_pdm(case):
         acc.append([a, b, w, nrm, r])
     obs["acc"] = acc
     means = []
-    for kind, filt, w, nrm in case["means"]:
+    for kind, filt, w, nrm in means_q:
         ff = None
         if filt is not None:
             fs = set(id(tobj(i)) for i in filt)
@@ -233,7 +238,7 @@ def observe_pdm(case):
     # seen by the oracle only
     obs["distances_list"] = res_call(lambda: sorted(units(x) for x in pdm.distances()))
     obs["sum_of_distances"] = res_call(lambda: units(pdm.sum_of_distances()))
-    return ["Ok", obs]
+    return obs
 
 
 def path_walk(t):
@@ -269,7 +274,20 @@ def close(x, y, eps):
     return abs(x - y) <= eps * (1 + abs(y))
 
 
-def oracle_pdm(case, obs):
+def oracle_pdm(case, obs, mode="tree"):
+    """mode: "tree" = compiled from case["tree"]; "dict" = compiled from the dict of that tree's patristic
+    distances (no steps / mrca / tree size); "empty" = cleared or never compiled"""
+    if mode == "empty":
+        o = obs[1]
+        if o["taxa"]:
+            return ("an empty matrix maps taxa %s" % o["taxa"], "mapped-taxa")
+        for a, b, w, nrm, r in o["acc"]:
+            if a != b and r[0] == "Ok":
+                return ("distance(%d,%d) on an empty matrix returned %s" % (a, b, r), "accessor")
+        for kind, filt, w, nrm, r in o["means"]:
+            if r[0] == "Ok":
+                return ("%s on an empty matrix returned %s instead of raising" % (kind, r), "mean-null")
+        return None
     t = case["tree"]
     lv = trees.leaves(t)
     if any(x["taxon"] is None for x in lv) and len(trees.preorder(t)) > 1:
@@ -289,6 +307,10 @@ def oracle_pdm(case, obs):
             if o["dist"][i][j] != d:
                 key = "zero-diagonal" if a == b else "distance"
                 return ("distance[%d][%d] = %s units, path walk gives %d" % (a, b, o["dist"][i][j], d), key)
+            if mode == "dict":
+                if o["dist"][i][j] != o["dist"][j][i]:
+                    return ("matrix not symmetric at (%d,%d)" % (a, b), "symmetry")
+                continue
             if o["steps"][i][j] != s:
                 return ("steps[%d][%d] = %s, path walk gives %d" % (a, b, o["steps"][i][j], s), "steps")
             if o["mrca"][i][j] != turn:
@@ -306,6 +328,10 @@ def oracle_pdm(case, obs):
     tl = sum((x["len"] or 0) for x in trees.preorder(t))
     ne = len(trees.preorder(t))
     for a, b, w, nrm, r in o["acc"]:
+        if a not in taxa or b not in taxa:
+            if a != b and r[0] == "Ok":
+                return ("distance(%d,%d) returned %s, taxon not in the matrix" % (a, b, r), "accessor")
+            continue
         base = Fraction(want[(a, b)][0]) * FUNIT if w else Fraction(want[(a, b)][1])
         nf = (Fraction(tl) * FUNIT if w else Fraction(ne)) if nrm else Fraction(1)
         if a == b or not nrm:
@@ -1199,6 +1225,148 @@ def to_coq_csv(case, obs):
 # dispatch
 # ----------------------------------------------------------------------------------------------
 
+# ----------------------------------------------------------------------------------------------
+# histories on ONE PhylogeneticDistanceMatrix object (query, recompile, query again)
+# ----------------------------------------------------------------------------------------------
+HEADER_HIST = ("From DV Require Import Model.PyPrims Model.Tree Model.C14Model Model.C14Hist.\n"
+               "From Coq Require Import ZArith QArith. Open Scope Z_scope.")
+
+
+def gen_hist_queries(rng, mode, taxa, ntax):
+    universe = list(range(ntax))
+    acc, means = [], []
+    for _ in range(rng.randint(1, 4)):
+        pool = taxa if (taxa and rng.random() < 0.8) else universe
+        w = True if mode == "dict" else rng.random() < 0.5
+        nrm = False if mode == "dict" else rng.random() < 0.4
+        acc.append([rng.choice(pool), rng.choice(pool), w, nrm])
+    for _ in range(rng.randint(2, 5)):
+        r = rng.random()
+        if r < 0.55:
+            filt = None
+        elif r < 0.65:
+            filt = sorted(rng.sample(universe, min(ntax, rng.choice([0, 1, 2]))))
+        else:
+            filt = sorted(rng.sample(universe, rng.randint(1, ntax)))
+        w = True if mode == "dict" else rng.random() < 0.6
+        # an object not compiled from a tree has _tree_length = _num_edges = None: no normalised summaries
+        nrm = False if mode in ("dict", "empty") else rng.random() < 0.35
+        means.append([rng.choice(["MPD", "MNTD", "MNTD"]), filt, w, nrm])
+    return acc, means
+
+
+def gen_hist_case(rng, tier):
+    ntax = rng.randint(3, 9)
+    stages = []
+    mode, taxa = "empty", []
+    nst = rng.randint(2, 5 if tier == "quick" else 7)
+    for i in range(nst):
+        r = rng.random()
+        if i == 0:
+            op = "none" if r < 0.25 else "tree"
+        else:
+            op = "tree" if r < 0.55 else "dict" if r < 0.72 else "clear" if r < 0.82 else "none"
+        st = {"op": op}
+        if op in ("tree", "dict"):
+            k = rng.randint(2, ntax) if rng.random() < 0.93 else 1
+            sub = rng.sample(range(ntax), k)
+            st["tree"] = trees.gen_tree(rng, k, lengths=rng.choice(["dyadic", "mixed", "int", "positive"]),
+                                        unifurcations=rng.choice([0.0, 0.0, 0.2]), taxa=sub)
+            taxa = sorted(sub) if k > 1 else []
+            mode = op
+            if op == "dict":
+                st["order"] = rng.sample(sub, len(sub))
+                st["full"] = rng.random() < 0.4
+                if k == 1:
+                    taxa = sorted(sub)
+        elif op == "clear":
+            mode, taxa = "empty", []
+        st["acc"], st["means"] = gen_hist_queries(rng, mode, taxa, ntax)
+        stages.append(st)
+    return {"kind": "hist", "ntax": ntax, "stages": stages}
+
+
+def observe_hist(case):
+    import dendropy
+    ns, objs = trees.make_namespace(case["ntax"])
+    tix = {id(o): i for i, o in enumerate(objs)}
+    out = []
+    mode = "empty"
+    with warnings.catch_warnings():
+        warnings.simplefilter("ignore")
+        pdm = dendropy.PhylogeneticDistanceMatrix()
+        for st in case["stages"]:
+            op, sent = st["op"], None
+            try:
+                if op == "tree":
+                    tree, _ = trees.build_dendropy(st["tree"], objs, is_rooted=True, namespace=ns)
+                    pdm.compile_from_tree(tree)
+                    mode = "tree"
+                elif op == "dict":
+                    tree, _ = trees.build_dendropy(st["tree"], objs, is_rooted=True, namespace=ns)
+                    fresh = dendropy.PhylogeneticDistanceMatrix.from_tree(tree)
+                    order = st["order"]
+                    distances, sent = {}, []
+                    for i, a in enumerate(order):
+                        cols = order if st["full"] else order[i + 1:]
+                        if len(order) == 1:
+                            cols = []
+                        distances[objs[a]] = {objs[b]: fresh.patristic_distance(objs[a], objs[b]) for b in cols}
+                        sent.append([a, [[b, units(distances[objs[a]][objs[b]])] for b in cols]])
+                    pdm.compile_from_dict(distances, ns)
+                    mode = "dict"
+                elif op == "clear":
+                    pdm.clear()
+                    mode = "empty"
+            except Exception as e:
+                out.append({"op": op, "sent": sent, "res": ["Err", core.exc_enum(e)]})
+                break
+            out.append({"op": op, "sent": sent,
+                        "res": ["Ok", snapshot(pdm, objs, tix, st["acc"], st["means"], full=(mode == "tree"))]})
+    return {"stages": out}
+
+
+def oracle_hist(case, obs):
+    """every stage against the independent path walk of the tree the object was LAST compiled from"""
+    mode, t = "empty", None
+    for i, (st, ob) in enumerate(zip(case["stages"], obs["stages"])):
+        if st["op"] in ("tree", "dict"):
+            mode, t = st["op"], st["tree"]
+        elif st["op"] == "clear":
+            mode, t = "empty", None
+        if ob["res"][0] != "Ok":
+            return ("%s raised %s at step %d of a history on one matrix object" % (st["op"], ob["res"][1], i), "reuse-raises")
+        if mode == "dict" and len(trees.leaves(t)) == 1:
+            one = sorted(x["taxon"] for x in trees.leaves(t))
+            v = None if ob["res"][1]["taxa"] == one else \
+                ("mapped taxa %s after compile_from_dict of the single taxon %s" % (ob["res"][1]["taxa"], one), "mapped-taxa")
+        else:
+            v = oracle_pdm({"tree": t}, ob["res"], mode)
+        if v:
+            hist = " -> ".join(s["op"] for s in case["stages"][:i + 1])
+            return ("one matrix object, %s (step %d): %s" % (hist, i, v[0]), "reuse-" + v[1])
+    return None
+
+
+def c_hop(st, ob):
+    if st["op"] == "none":
+        return "HNone"
+    if st["op"] == "clear":
+        return "HClear"
+    if st["op"] == "tree":
+        return "(HTree %s)" % trees.c_tree(st["tree"])
+    return "(HDict %s)" % clist([cpair(cz(a), clist([cpair(cz(b), cz(v)) for b, v in row])) for a, row in ob["sent"]])
+
+
+def to_coq_hist(case, obs):
+    return clist([cpair(c_hop(st, ob), c_res(ob["res"], c_pdm_obs)) for st, ob in zip(case["stages"], obs["stages"])])
+
+
+def nontrivial_hist(case, obs):
+    comp = [st for st in case["stages"][:len(obs["stages"])] if st["op"] in ("tree", "dict")]
+    return len(comp) >= 2 and any(len(trees.leaves(st["tree"])) >= 3 for st in comp)
+
+
 def gen_case(rng, tier):
     r = rng.random()
     if r < 0.40:
@@ -1290,12 +1458,17 @@ def search(ctx, budget_s):
     rng = random.Random(ctx.seed + 1414)
     n = 0
     while time.time() - t0 < budget_s and n < 20000:
-        case = gen_case(rng, "thorough")
+        if rng.random() < 0.25:
+            case = gen_hist_case(rng, "thorough")
+            obsf, orf = observe_hist, oracle_hist
+        else:
+            case = gen_case(rng, "thorough")
+            obsf, orf = observe, oracle
         try:
-            obs = observe(case)
+            obs = obsf(case)
         except Exception:
             continue
-        v = oracle(case, obs)
+        v = orf(case, obs)
         n += 1
         if v:
             ctx.violation(v[0], {"case": case, "observed": obs}, key=v[1])
@@ -1332,6 +1505,10 @@ def run(tier, seed, replay=None):
         import json
         r = json.load(open(replay))["replay"]
         case = r["case"]
+        if case.get("kind") == "hist":
+            obs = observe_hist(case)
+            print("oracle:", oracle_hist(case, obs))
+            return 0
         obs = observe(case)
         print("oracle:", oracle(case, obs))
         return 0
@@ -1365,5 +1542,13 @@ def run(tier, seed, replay=None):
     core.corr_stage(ctx, csv_cases, observe_csv, to_coq_csv, HEADER_CSV, "csv_case_ok", oracle=oracle_csv,
                     nontrivial=lambda c, o: len(o.get("written", [])) >= 3, shard=(60 if tier == "quick" else 250),
                     label="csv", sample_fn=lambda c, o: {"kind": "csv", "labels": c["labels"], "damage": c["damage"]})
+    nh = 150 if tier == "quick" else 2000
+    hist_cases = [gen_hist_case(ctx.rng, tier) for _ in range(nh)]
+    for c in hist_cases:
+        ctx.count("kind:hist")
+        ctx.count("hist-ops:" + ",".join(sorted(set(st["op"] for st in c["stages"]))))
+    core.corr_stage(ctx, hist_cases, observe_hist, to_coq_hist, HEADER_HIST, "hist_case_ok", oracle=oracle_hist,
+                    show_fn="hist_show", nontrivial=nontrivial_hist, search=search, shard=(50 if tier == "quick" else 250),
+                    label="hist", sample_fn=lambda c, o: {"kind": "hist", "ops": [st["op"] for st in c["stages"]]})
     return ctx.finish(level="proof",
-                      rule="random cases: 40% distance matrices of random rose trees (1-30 leaves, polytomies, unifurcations, dyadic/zero/None lengths, all pairs, summaries under filters/options), 30% Tree.mrca / treemeasure.patristic_distance histories (absent/current/stale encoding, three argument forms, start_node, refresh), 30% NJ/UPGMA runs (additive, ultrametric, arbitrary, unweighted, through CSV, CSV text); thorough adds every rose-tree shape with <=5 leaves; non-trivial = >=3 taxa (and >=2 queries for mrca histories); distinct by full case content")
+                      rule="histories on ONE PhylogeneticDistanceMatrix object (2-7 steps of compile_from_tree / compile_from_dict / clear / nothing over a shared namespace with changing leaf sets, each followed by accessor and mean_pairwise_distance / mean_nearest_taxon_distance queries, mostly unfiltered; every step compared with the path walk of the tree last compiled and with the model recomputed from the current tables); random cases: 40% distance matrices of random rose trees (1-30 leaves, polytomies, unifurcations, dyadic/zero/None lengths, all pairs, summaries under filters/options), 30% Tree.mrca / treemeasure.patristic_distance histories (absent/current/stale encoding, three argument forms, start_node, refresh), 30% NJ/UPGMA runs (additive, ultrametric, arbitrary, unweighted, through CSV, CSV text); thorough adds every rose-tree shape with <=5 leaves; non-trivial = >=3 taxa (and >=2 queries for mrca histories); distinct by full case content")
